@@ -517,6 +517,10 @@ func (u *Upstream) withAckTimeoutCh(ctx context.Context, inCh <-chan *message.Up
 		defer cancel()
 		select {
 		case <-timeoutCtx.Done():
+			if ctx.Err() != nil {
+				// cancelled (link lost or stream ended), not an ack timeout: the chunk must stay in the sent storage
+				return
+			}
 			select {
 			case <-ctx.Done():
 			case <-u.ctx.Done():
